@@ -36,6 +36,11 @@ def method_lookup(p: Program, cls):
         if isinstance(f, ast.Attribute) and isinstance(f.value, ast.Name) and f.value.id == "self":
             m = p.lookup_method(cls, f.attr)
             return m.node if m is not None and f.attr not in HELPER_GATES else None
+        if isinstance(f, ast.Name) and f.id.startswith("_") and f.id not in HELPER_GATES:
+            # a private module-level helper of the pruner's module or of the shared percentile module (a gate factored out of two pruners)
+            for mod in (cls.module.name, PR + "_percentile"):
+                if p.has_func(f"{mod}.{f.id}"):
+                    return p.func(f"{mod}.{f.id}").node
         return None
     return lookup
 
@@ -206,7 +211,7 @@ def run(ctx):
         _pe, gates = gate_edges(g, defs, fld, method_lookup(p, cls))
         n_meas = 0
         for t, pk, e in gates:
-            for x in ast.walk(t.expr):
+            for x in ast.walk(e):  # the gate as resolved / with helper gates inlined
                 if not (isinstance(x, ast.Compare) and len(x.ops) == 1):
                     continue
                 sides = [x.left, x.comparators[0]]
